@@ -44,6 +44,8 @@ var famBounds = map[string][3]int64{
 	"4rd-nesting-broken":         {262, 2, 16},
 	"minimal-options":            {64, 0, 16},
 	"oro-flood":                  {103, 0, 20},
+	"class-item-overrun":         {483, 0, 16},
+	"vendorclass-item-overrun":   {479, 0, 16},
 	"userclass-items":            {323, 0, 72},
 	"vendorclass-items":          {229, 0, 55},
 	"bootfileparam-items":        {250, 0, 54},
